@@ -49,13 +49,24 @@ Section SnapSim.
     incl ms ms' -> ack_count V ms t k <= ack_count V ms' t k.
   Proof. intros Hi. apply filter_length_mono. intros v. now apply existsb_incl. Qed.
 
-  (* a step stays possible, with the same effect, in a bigger soup *)
+  Definition same_acks (ms ms0 : list msg) : Prop :=
+    forall t i l k, In (Ack t i l k) ms -> In (Ack t i l k) ms0.
+
+  Lemma acks_le_mono ms ms0 i m :
+    same_acks ms ms0 -> acks_le ms0 i m = true -> acks_le ms i m = true.
+  Proof.
+    unfold acks_le. intros Hs H. rewrite forallb_forall in *. intros x Hx.
+    destruct x; auto. apply (H _ (Hs _ _ _ _ Hx)).
+  Qed.
+
+  (* a step stays possible, with the same effect, in a bigger soup that has no other
+     acknowledgements *)
   Lemma step_soup_mono n l n' ms :
-    step n l n' -> incl (msgs n) ms ->
+    step n l n' -> incl (msgs n) ms -> same_acks ms (msgs n) ->
     exists new, msgs n' = new ++ msgs n /\
                 step (with_msgs n ms) l (with_msgs n' (new ++ ms)).
   Proof.
-    intros Hstep Hi.
+    intros Hstep Hi Hacks.
     inversion Hstep; subst; repeat match goal with x := _ |- _ => subst x end;
       unfold with_msgs; cbn [nodes msgs lead llog0 llog].
     - eexists [_; _]. split; [reflexivity|]. apply (SATimeout V (mkNet _ ms _ _ _)).
@@ -63,10 +74,10 @@ Section SnapSim.
     - exists []. split; [reflexivity|]. apply (SAStepDown V (mkNet _ ms _ _ _)).
     - eexists [_]. split; [reflexivity|].
       apply (SAHandleRV V (mkNet _ ms _ _ _)); cbn [nodes msgs]; auto.
-    - eexists [_]. split; [reflexivity|].
+    - exists []. split; [reflexivity|].
       apply (SABecomeLeader V (mkNet _ ms _ _ _)); cbn [nodes msgs]; auto.
       pose proof (vote_count_mono (msgs n) ms (term (nodes n i)) i Hi). lia.
-    - eexists [_]. split; [reflexivity|].
+    - exists []. split; [reflexivity|].
       apply (SAPropose V (mkNet _ ms _ _ _)); cbn [nodes msgs]; auto.
     - eexists [_]. split; [reflexivity|].
       apply (SASendAE V (mkNet _ ms _ _ _)); cbn [nodes msgs]; auto.
@@ -83,7 +94,11 @@ Section SnapSim.
       eapply existsb_incl; eauto.
     - exists []. split; [reflexivity|].
       apply (SAHandleHB V (mkNet _ ms _ _ _)); cbn [nodes msgs]; auto.
-    - exists []. split; [reflexivity|]. now apply (SARestart V (mkNet _ ms _ _ _)).
+    - eexists [_]. split; [reflexivity|].
+      apply (SASelfAck V (mkNet _ ms _ _ _)); cbn [nodes msgs]; auto.
+    - exists []. split; [reflexivity|].
+      apply (SARestart V (mkNet _ ms _ _ _)); cbn [nodes msgs]; auto.
+      eapply acks_le_mono; eauto.
   Qed.
 
   Lemma steps_app n ls m ls' p : steps n ls m -> steps m ls' p -> steps n (ls ++ ls') p.
@@ -102,7 +117,8 @@ Section SnapSim.
 
   Definition R (s : net2) (ms : list msg) : Prop :=
     incl (msgs (base s)) ms /\
-    forall m, In m (snaps s) -> is_covered (llog (base s)) ms m.
+    (forall m, In m (snaps s) -> is_covered (llog (base s)) ms m) /\
+    same_acks ms (msgs (base s)).
 
   Definition wf2 (s : net2) : Prop :=
     forall i, first s i <= commit (nodes (base s) i).
@@ -123,7 +139,7 @@ Section SnapSim.
   Lemma step_commit_mono n l n' i :
     step n l n' ->
     commit (nodes n i) <= commit (nodes n' i) \/
-    exists c, l = LRestart i c /\ commit (nodes n' i) = c.
+    exists c m, l = LRestart i c m /\ commit (nodes n' i) = c.
   Proof.
     intros Hstep. inv_step Hstep; simp_upd; try (left; lia).
     right. eauto.
@@ -134,7 +150,7 @@ Section SnapSim.
     intros Hwf Hstep i. specialize (Hwf i).
     inversion Hstep; subst; repeat match goal with x := _ |- _ => subst x end;
       cbn [base first nodes].
-    - destruct (step_commit_mono _ _ _ i H0) as [Hle|(c & -> & Hc)]; [lia|].
+    - destruct (step_commit_mono _ _ _ i H0) as [Hle|(c & m & -> & Hc)]; [lia|].
       simpl in H. lia.
     - destruct (Nat.eq_dec i i0) as [->|Hne]; [rewrite updn_eq; lia | now rewrite updn_neq].
     - assumption.
@@ -179,17 +195,18 @@ Section SnapSim.
     forall k, k <= S sidx ->
     exists ls new,
       steps (with_msgs b ms) ls (with_msgs b (new ++ ms)) /\
+      (forall t v l0 k0, ~ In (Ack t v l0 k0) new) /\
       forall p, p < k ->
         In (AE (term (nodes b i)) i p (term_at (log (nodes b i)) p)
                (firstn (sidx - p) (skipn p (log (nodes b i)))) sidx) (new ++ ms).
   Proof.
     intros Hrole Hc Hl. induction k as [|k IH]; intros Hk.
-    - exists [], []. split; [constructor|]. intros p Hp. lia.
-    - destruct (IH ltac:(lia)) as (ls & new & Hs & Hp).
+    - exists [], []. split; [constructor|]. split; [intros ? ? ? ? []|]. intros p Hp. lia.
+    - destruct (IH ltac:(lia)) as (ls & new & Hs & Hna & Hp).
       exists (ls ++ [LSendAE i k (sidx - k) sidx]),
              (AE (term (nodes b i)) i k (term_at (log (nodes b i)) k)
                  (firstn (sidx - k) (skipn k (log (nodes b i)))) sidx :: new).
-      split.
+      split; [|split].
       + assert (Hlast : step (with_msgs b (new ++ ms)) (LSendAE i k (sidx - k) sidx)
                              (with_msgs b ((AE (term (nodes b i)) i k (term_at (log (nodes b i)) k)
                                                (firstn (sidx - k) (skipn k (log (nodes b i)))) sidx
@@ -198,6 +215,7 @@ Section SnapSim.
           apply (SASendAE V (mkNet (nodes b) (new ++ ms) (lead b) (llog0 b) (llog b)));
             cbn [nodes]; auto; lia. }
         eapply steps_app; [exact Hs|]. econstructor; [exact Hlast | constructor].
+      + intros t v l0 k0 [Heq|Hin]; [discriminate | eapply Hna; eauto].
       + intros p Hplt. destruct (Nat.eq_dec p k) as [->|Hne].
         * now left.
         * right. apply Hp. lia.
@@ -209,26 +227,28 @@ Section SnapSim.
     reachable (with_msgs (base s) ms) -> R s ms -> step2 s l s' ->
     exists ls ms', steps (with_msgs (base s) ms) ls (with_msgs (base s') ms') /\ R s' ms'.
   Proof.
-    intros Hreach (Hincl & Hcov) Hstep.
+    intros Hreach (Hincl & Hcov & Hsa) Hstep.
     pose proof (inv_reachable V V_nodup _ Hreach) as [H1 H2 H3].
     inversion Hstep; subst; repeat match goal with x := _ |- _ => subst x end;
       cbn [base first snaps]; set (a := with_msgs (base s) ms) in *.
     - (* a stage-1 step *)
-      destruct (step_soup_mono _ _ _ ms H0 Hincl) as (new & Hnew & Hst).
+      destruct (step_soup_mono _ _ _ ms H0 Hincl Hsa) as (new & Hnew & Hst).
       exists [l0], (new ++ ms). split; [econstructor; [exact Hst | constructor]|].
       pose proof (step_gext V V_nodup _ _ _ H1 H2 Hst) as (_ & _ & Hg & _).
-      unfold R; cbn [base snaps]. split.
+      unfold R; cbn [base snaps]. split; [|split].
       + rewrite Hnew. intros m Hm. apply in_app_or in Hm. apply in_or_app.
         destruct Hm; [now left | right; now apply Hincl].
       + intros m Hm. eapply is_covered_mono; [exact Hg | | apply Hcov; exact Hm].
         intros x Hx. apply in_or_app. now right.
+      + rewrite Hnew. intros t i l1 k Hm. apply in_app_or in Hm. apply in_or_app.
+        destruct Hm; [now left | right; now apply Hsa].
     - (* compaction: invisible at stage 1 *)
-      exists [], ms. split; [constructor|]. split; assumption.
+      exists [], ms. split; [constructor|]. repeat split; assumption.
     - (* sending a snapshot: send the Replicate messages it stands for *)
       pose proof (commit_in_range V V_nodup a i Hreach) as Hcr. cbn [a with_msgs nodes] in Hcr.
       destruct (send_covering (base s) ms i sidx H ltac:(lia) ltac:(lia) (S sidx) (le_n _))
-        as (ls & new & Hs & Hp).
-      exists ls, (new ++ ms). split; [exact Hs|]. unfold R; cbn [base snaps]. split.
+        as (ls & new & Hs & Hna & Hp).
+      exists ls, (new ++ ms). split; [exact Hs|]. unfold R; cbn [base snaps]. split; [|split].
       + intros m Hm. apply in_or_app. right. now apply Hincl.
       + intros m [<-|Hm].
         * cbn [is_covered].
@@ -239,6 +259,8 @@ Section SnapSim.
         * eapply is_covered_mono; [ | | apply Hcov; exact Hm].
           -- intros t. exists []. now rewrite app_nil_r.
           -- intros x Hx. apply in_or_app. now right.
+      + intros t v l1 k Hm. apply in_app_or in Hm.
+        destruct Hm as [Hm|Hm]; [exfalso; eapply Hna; eauto | now apply Hsa].
     - (* snapshot at or below committed: the Replicate with prev = 0 is stale *)
       destruct (Hcov _ H) as (Hs & Ht & Hp). cbn [base] in *.
       pose proof (Hp 0 ltac:(lia)) as Hae.
@@ -248,11 +270,12 @@ Section SnapSim.
       split.
       + econstructor; [|constructor].
         apply (SAHandleAEStale V a j _ ldr 0 _ _ sidx); cbn [a with_msgs nodes msgs]; auto. lia.
-      + unfold R; cbn [base snaps msgs llog]. split.
+      + unfold R; cbn [base snaps msgs llog]. split; [|split].
         * intros m [<-|Hm]; [now left | right; now apply Hincl].
         * intros m Hm. eapply is_covered_mono; [ | | apply Hcov; exact Hm].
           -- intros t. exists []. now rewrite app_nil_r.
           -- intros x Hx. now right.
+        * intros t0 v l1 k0 [Heq|Hm]; [now left | right; now apply Hsa].
     - (* snapshot matches the log: the Replicate with prev = commit appends nothing *)
       destruct (Hcov _ H) as (Hs & Ht & Hp). cbn [base] in *.
       set (x := nodes (base s) j) in *. set (t := term x) in *.
@@ -293,11 +316,12 @@ Section SnapSim.
         rewrite Hlen in Hst.
         replace (Nat.max (commit x) (Nat.min sidx sidx)) with sidx in Hst by lia.
         exact Hst.
-      + unfold R; cbn [base snaps msgs llog]. split.
+      + unfold R; cbn [base snaps msgs llog]. split; [|split].
         * intros m [<-|Hm]; [now left | right; now apply Hincl].
         * intros m Hm. eapply is_covered_mono; [ | | apply Hcov; exact Hm].
           -- intros t0. exists []. now rewrite app_nil_r.
           -- intros y Hy. now right.
+        * intros t0 v l1 k0 [Heq|Hm]; [now left | right; now apply Hsa].
     - (* snapshot does not match: the Replicate with prev = commit replaces the log *)
       destruct (Hcov _ H) as (Hs & Ht & Hp). cbn [base] in *.
       set (x := nodes (base s) j) in *. set (t := term x) in *.
@@ -333,11 +357,12 @@ Section SnapSim.
         rewrite Hlen in Hst.
         replace (Nat.max (commit x) (Nat.min sidx sidx)) with sidx in Hst by lia.
         exact Hst.
-      + unfold R; cbn [base snaps msgs llog]. split.
+      + unfold R; cbn [base snaps msgs llog]. split; [|split].
         * intros m [<-|Hm]; [now left | right; now apply Hincl].
         * intros m Hm. eapply is_covered_mono; [ | | apply Hcov; exact Hm].
           -- intros t0. exists []. now rewrite app_nil_r.
           -- intros y Hy. now right.
+        * intros t0 v l1 k0 [Heq|Hm]; [now left | right; now apply Hsa].
   Qed.
 
   (* a stage-1 step of stage 2 is the same single step at stage 1 *)
@@ -346,16 +371,18 @@ Section SnapSim.
     exists ms', step (with_msgs (base s) ms) l (with_msgs b' ms') /\
                 R (mkNet2 b' (first s) (snaps s)) ms'.
   Proof.
-    intros Hreach (Hincl & Hcov) H0.
+    intros Hreach (Hincl & Hcov & Hsa) H0.
     pose proof (inv_reachable V V_nodup _ Hreach) as [H1 H2 H3].
-    destruct (step_soup_mono _ _ _ ms H0 Hincl) as (new & Hnew & Hst).
+    destruct (step_soup_mono _ _ _ ms H0 Hincl Hsa) as (new & Hnew & Hst).
     exists (new ++ ms). split; [exact Hst|].
     pose proof (step_gext V V_nodup _ _ _ H1 H2 Hst) as (_ & _ & Hg & _).
-    unfold R; cbn [base snaps]. split.
+    unfold R; cbn [base snaps]. split; [|split].
     - rewrite Hnew. intros m Hm. apply in_app_or in Hm. apply in_or_app.
       destruct Hm; [now left | right; now apply Hincl].
     - intros m Hm. eapply is_covered_mono; [exact Hg | | apply Hcov; exact Hm].
       intros x Hx. apply in_or_app. now right.
+    - rewrite Hnew. intros t i l1 k Hm. apply in_app_or in Hm. apply in_or_app.
+      destruct Hm; [now left | right; now apply Hsa].
   Qed.
 
   Lemma sim_steps s ls s' : steps2 s ls s' -> forall ms,
@@ -375,7 +402,7 @@ Section SnapSim.
   Proof.
     intros (ls & Hs).
     assert (H0 : reachable (with_msgs (base (init2)) [])) by (exists []; constructor).
-    assert (HR0 : R init2 []) by (split; [intros m [] | intros m []]).
+    assert (HR0 : R init2 []) by (split; [intros m [] | split; [intros m [] | intros ? ? ? ? []]]).
     destruct (sim_steps _ _ _ Hs [] H0 HR0) as (ls1 & ms & Hst & HR).
     exists ms. split; [|exact HR]. eapply steps_reachable; eauto.
   Qed.
@@ -481,7 +508,7 @@ Section SnapSim.
     firstn k (log (nodes (base s) i)) = firstn k (llog (base s) t) /\
     sterm = term_at (llog (base s) t) sidx.
   Proof.
-    intros Hr Hin Hk Hc. destruct (stage2_refines_stage1 s Hr) as (ms & Hreach & (_ & Hcov)).
+    intros Hr Hin Hk Hc. destruct (stage2_refines_stage1 s Hr) as (ms & Hreach & (_ & Hcov & _)).
     destruct (Hcov _ Hin) as (Hs & Ht & Hp).
     pose proof (inv_reachable V V_nodup _ Hreach) as [H1 H2 H3].
     split; [|rewrite Ht; apply term_at_firstn; lia].
@@ -504,7 +531,7 @@ Section SnapSim.
     match goal with Hin : In (IS _ _ _ _) _ |- _ => rename Hin into HinIS end.
     destruct (snapshot_content_committed s _ ldr sidx sterm j 0 Hr HinIS ltac:(lia) ltac:(lia))
       as (_ & Hst).
-    destruct (stage2_refines_stage1 s Hr) as (ms & _ & (_ & Hcov)).
+    destruct (stage2_refines_stage1 s Hr) as (ms & _ & (_ & Hcov & _)).
     destruct (Hcov _ HinIS) as (Hs & _ & _).
     unfold stored. cbn [base first nodes]. rewrite updn_eq, upd_eq. cbn [log commit].
     split; [|reflexivity]. f_equal; [f_equal|].
